@@ -9,9 +9,15 @@ Property (always on, judged on the real code by the Lean *specification*, not by
   P1 attribution   ok d  =>  d is the data of an intact reply to THIS request that was carried by a
                    frame actually received (Spec.Attribution.allowedAnswers)
   P2 sequence      the request on the wire carries a sequence number different from the previous one
-  P3 progress      a script "<= max_retries unrelated frames (bare acknowledgements free), possibly
-                   after <= max_retries time-outs, then the reply" must return that reply — on a fresh
-                   interface (finds_match_after_noise) and after ANY history (no_poisoning)
+  P3 progress      a script "<= max_retries unrelated frames (bare acknowledgements of THIS transaction free),
+                   possibly after <= max_retries time-outs, then the reply" must return that reply — on a fresh
+                   interface (finds_match_after_noise) and after ANY history, whatever earlier requests left
+                   unread in the socket (no_poisoning)
+  P4 error origin  a CompletionCodeError leaves the transport only on an intact response to the Send Message of
+                   the transaction in hand (never from a late / foreign acknowledgement or a damaged frame)
+
+The socket's receive queue is part of the history: the datagrams of a step's script that the request did not
+read are still in the (fake) socket when the next request starts (harness/sim/transport04.py).
 """
 import itertools
 
@@ -28,10 +34,17 @@ RULE = ('RMCP: every ordering up to length 4 (thorough: 5, then 6 while time rem
         'wrong-length datagrams; seeded random scripts over the extended alphabet (Send-Message envelopes 1-2 deep '
         'around replies and stale frames, envelope with error completion code, short/empty/malformed datagrams) with '
         'random requests (netFn, LUN, command, payload, routing depth 0..3, sequence numbers incl. wrap-around); '
-        'sessions of 2-5 requests on one interface object where late replies to earlier requests arrive during later '
-        'ones.  ipmb-dev and Aardvark: every ordering up to length 3 of {reply, stale, other cmd/netFn/LUN, bad '
-        'checksums, idle poll, read error} x 4 timing patterns, random scripts (wrong length prefix, short frames), '
-        'sessions.  A case is distinct by (transport, configuration, state, requests, scripts); non-trivial = at '
+        'sessions of 2-6 requests on one interface object where late replies to earlier requests arrive during later '
+        'ones AND what a request leaves unread (duplicates, replies to retransmissions, frames behind the reply) is '
+        'the first thing the next request reads (persistent socket queue); directed histories: k = 1..3 surplus '
+        'datagrams during request 1 x max_retries 0..2, then 4 requests whose replies arrive.  Requests whose command '
+        'id is 34h in network functions other than App (HPM.1 Get Upgrade Status 2Ch/34h, OEM) bridged and NOT bridged, '
+        'and raw Send Message (App/34h) not bridged; wrapped replies with a corrupted wrapper byte (every wrapper field, '
+        'depth 1-2); acknowledgements (cc 00h and error codes) that belong to an EARLIER transaction, during bridged and '
+        'un-bridged requests.  ipmb-dev and Aardvark: every ordering up to length 3 of {reply, stale, other '
+        'cmd/netFn/LUN, bad checksums, idle poll, read error} x 4 timing patterns, random scripts (wrong length prefix, '
+        'short frames), sessions in which is_ipmc_accessible probes are requests like the others (directed: request, '
+        'late reply, probe).  A case is distinct by (transport, configuration, state, requests, scripts); non-trivial = at '
         'least one event.')
 ASSUMPTIONS = [
     'the step functions of the loop models (lean/PyIpmi/Model/RmcpLoop.lean: rmcpRequest/outer/inner/nextQ/nextSock/'
@@ -57,11 +70,18 @@ ASSUMPTIONS = [
     'time of ipmb-dev/Aardvark is a virtual clock in 1/64 s ticks carried by the events',
     'the RMCP/IPMI-session wrapper is exercised only without a session (authentication none); packing and '
     'authentication are C05/C06',
-    'the reply that counts for a bridged request is the innermost embedded message; the checksums of the Send '
-    'Message envelopes around it are not checked by the code and not required by the specification used here',
+    'the reply that counts for a bridged request is the innermost embedded message of a received datagram whose '
+    'Send Message envelopes are all INTACT (both checksums, netFn 07h, command 34h): data out of a damaged envelope '
+    'is a violation of the attribution clause (Spec.Attribution.Carries true)',
+    'the socket keeps what was delivered and not read from one request to the next (FakeSock.arrived); the silent '
+    'periods of a script leave nothing behind; a non-blocking read sees only what has already arrived',
+    'which state of the source the correspondence compares with (requeue / cmdOnly / drain of Loops.Cfg, inc of '
+    'i2cProbe) is decided by probing the real code with the witnesses of the counter-example theorems; the PROPERTY '
+    'is judged on the real code in every case',
     'rmcp_ignore_rq_seq is a documented opt-out: with it the sequence number is not part of "matches the request"',
-    'requests whose own command is Send Message (34h) issued through send_and_receive_raw are excluded from the '
-    'progress clauses (their direct reply is indistinguishable from bridging traffic by design)',
+    'the one combination excluded from the progress clauses: a BRIDGED request whose own reply passes the filter of '
+    'the outstanding Send Message (a Send Message to LUN 0 of the target sent through a bridge) - nothing in the '
+    'frame tells it from the bridge\'s response; every other request, command 34h included, is judged',
     'header fields are in range (netFn < 64, LUN < 4, addresses and command < 256); single-threaded use (C14 '
     'covers sharing)',
 ]
@@ -72,6 +92,7 @@ SIG_ATTR = 'C04:%s:attribution'
 SIG_SEQ = 'C04:%s:seq_distinct'
 SIG_NOISE = 'C04:%s:finds_match_after_noise'
 SIG_POISON = 'C04:%s:no_poisoning'
+SIG_CC = 'C04:%s:foreign-completion-code'
 
 _gen = None
 
@@ -84,7 +105,10 @@ def translate(ctx):
 # =============================================================== stimuli (from the spec figure)
 BASE9 = ['match', 'stale', 'cmd', 'netfn', 'lun', 'hdr', 'pay', 'ack', 'T']
 EXT = BASE9 + ['wrapmatch', 'wrap2match', 'wrapstale', 'envcc', 'short', 'empty', 'hdr6', 'envshort', 'ack7',
-               'M', 'Lmatch', 'Lstale', 'matchcc', 'stale2', 'stale32', 'echo']
+               'M', 'Lmatch', 'Lstale', 'matchcc', 'stale2', 'stale32', 'echo',
+               'wrapbad', 'wrapbadcc', 'lateack', 'lateackcc', 'cmd34', 'envccold']
+# frames that must be treated as unrelated whatever request is outstanding
+FOREIGN = ['lateack', 'lateackcc', 'envccold', 'wrapbad', 'wrapbadcc']
 I2C9 = ['match', 'stale', 'cmd', 'netfn', 'lun', 'hdr', 'pay', 'I', 'E']
 I2C_EXT = I2C9 + ['short', 'Lmatch', 'matchcc', 'sendmsg', 'echo', 'empty', 'stale2', 'stale32']
 
@@ -98,7 +122,7 @@ def _reply(req, cur_seq, rq_sa, data, **kw):
 
 def frame_of(kind, req, seq, rq_sa, data):
     """IPMB frame (bytes) for a frame kind relative to request `req` carrying sequence `seq`."""
-    if kind in ('match', 'wrapmatch', 'wrap2match', 'Lmatch'):
+    if kind in ('match', 'wrapmatch', 'wrap2match', 'Lmatch', 'wrapbad', 'wrapbadcc'):
         f = _reply(req, seq, rq_sa, data)
     elif kind == 'matchcc':
         f = _reply(req, seq, rq_sa, b'\xc1')
@@ -113,6 +137,8 @@ def frame_of(kind, req, seq, rq_sa, data):
         if c == 0x34:
             c = req['cmd'] ^ 2
         f = _reply(req, seq, rq_sa, data, cmd=c)
+    elif kind == 'cmd34':       # the reply to another command whose id is 34h (not Send Message unless netFn is App)
+        f = _reply(req, seq, rq_sa, data, cmd=0x34 if req['cmd'] != 0x34 else 0x35)
     elif kind == 'netfn':
         f = _reply(req, seq, rq_sa, data, netfn=(req['netfn'] + 3) % 64)
     elif kind == 'echo':       # the request's own netFn (even): an echo, not a response
@@ -146,6 +172,16 @@ def frame_of(kind, req, seq, rq_sa, data):
         raise ValueError(kind)
     if kind in ('wrapmatch', 'wrapstale'):
         f = T.send_msg_envelope(f, rq_sa=rq_sa, seq=seq)
+    if kind in ('wrapbad', 'wrapbadcc'):
+        # the reply inside a Send Message response ONE byte of which is damaged: `wrapbad` a header / checksum
+        # byte chosen by the data, `wrapbadcc` the completion code (00h -> an error code)
+        f = bytearray(T.send_msg_envelope(f, rq_sa=rq_sa, seq=seq))
+        if kind == 'wrapbadcc':
+            f[6] = (0x83, 0xc0, 0xc3, 0xff)[sum(data) % 4]
+        else:
+            off = (0, 1, 2, 3, 4, 5, len(f) - 1)[sum(data) % 7]
+            f[off] = (f[off] + 1 + sum(data) % 255) % 256
+        f = bytes(f)
     if kind == 'wrap2match':
         f = T.send_msg_envelope(T.send_msg_envelope(f, rq_sa=0x20, rs_sa=0x82, seq=seq), rq_sa=rq_sa, seq=seq)
     return f
@@ -162,6 +198,12 @@ def rmcp_event(kind, req, seq, rq_sa, data):
         return ['F', T.send_msg_envelope(b'', rq_sa=rq_sa, seq=seq)[:-1].hex()]
     if kind == 'envcc':
         return ['F', T.send_msg_envelope(b'', rq_sa=rq_sa, seq=seq, cc=0xc3).hex()]
+    if kind == 'lateack':       # acknowledgement (cc 00h) of the Send Message of an EARLIER transaction
+        return ['F', T.send_msg_envelope(b'', rq_sa=rq_sa, seq=(seq - 1) % 64).hex()]
+    if kind == 'lateackcc':     # … that failed (cc 83h)
+        return ['F', T.send_msg_envelope(b'', rq_sa=rq_sa, seq=(seq - 1) % 64, cc=0x83).hex()]
+    if kind == 'envccold':      # … two transactions ago, cc C3h
+        return ['F', T.send_msg_envelope(b'', rq_sa=rq_sa, seq=(seq - 2) % 64, cc=0xc3).hex()]
     if kind == 'envshort':
         return ['F', T.send_msg_envelope(b'\x01\x02', rq_sa=rq_sa, seq=seq).hex()]
     if kind == 'hdr6':
@@ -215,7 +257,10 @@ def run_real(case):
         rig.iface.next_sequence_number = case['seq0']
         for st in case['steps']:
             pre_seq = rig.iface.next_sequence_number
-            r = T.run_i2c(rig, st['req'], st['events'])
+            if 'probe' in st:
+                r = T.run_i2c_probe(rig, st['probe'], st['events'])
+            else:
+                r = T.run_i2c(rig, st['req'], st['events'])
             r['pre_seq'], r['pre_q'] = pre_seq, []
             res.append(r)
     finally:
@@ -223,23 +268,39 @@ def run_real(case):
     return res
 
 
+PROBE_REQ = {'netfn': 6, 'lun': 0, 'cmd': 1, 'payload': ''}
+
+
+def _step_req(st):
+    """the request a step puts on the wire (`is_ipmc_accessible` = Get Device ID to LUN 0 of the target)"""
+    if 'probe' in st:
+        return dict(PROBE_REQ, rs_sa=st['probe'])
+    return st['req']
+
+
 def _hexq(q):
     return ','.join(lean.hexs(x) for x in q) if q else '-'
 
 
+def _evs(events):
+    return [e[0] if e[0] in 'TM' else e[0] + (e[1] or '-') for e in events]
+
+
+def bridged_of(req, seq):
+    """'-' or the sequence number of the outstanding Send Message (routing with more than one entry)"""
+    return str(seq) if len(req.get('routing') or []) > 1 else '-'
+
+
 def model_line(case, st, r, variant):
-    req = st['req']
+    req = _step_req(st)
     pl = req.get('payload') or '-'
     if case['transport'] == 'rmcp':
         c = case['cfg']
         rt = ','.join('%d:%d:%d' % (h[0], h[1], h[2] if h[2] is not None else 0) for h in req.get('routing') or []) or '-'
-        evs = []
-        for e in st['events']:
-            evs.append(e[0] if e[0] in 'TM' else e[0] + (e[1] or '-'))
-        return 'rmcp %d %d %d %d %d %d %s %d %d %d %d %s %s %s' % (
-            c['mr'], int(bool(c.get('igs'))), int(bool(c.get('igl'))), 1 if variant == 'asShipped' else 0,
-            0x81, r['pre_seq'], _hexq(r['pre_q']), req['rs_sa'], req['netfn'], req['lun'], req['cmd'], pl, rt,
-            ' '.join(evs))
+        return 'rmcp %d %d %d %d %d %d %d %d %s %s %d %d %d %d %s %s %s' % (
+            c['mr'], int(bool(c.get('igs'))), int(bool(c.get('igl'))), variant['requeue'], variant['cmdOnly'],
+            variant['drain'], 0x81, r['pre_seq'], _hexq(r['pre_q']), ','.join(_evs(r['pre_sock'])) or '-',
+            req['rs_sa'], req['netfn'], req['lun'], req['cmd'], pl, rt, ' '.join(_evs(st['events'])))
     evs = []
     for e in st['events']:
         if e[0] == 'I':
@@ -248,8 +309,11 @@ def model_line(case, st, r, variant):
             evs.append('E%d' % e[1])
         else:
             evs.append('%s%d:%s' % (e[0], e[1], e[2] or '-'))
-    return 'i2c %s %d %d %d %d %d %s %s' % ('d' if case['transport'] == 'ipmbdev' else 'a', r['pre_seq'],
-                                           req['rs_sa'], req['netfn'], req['lun'], req['cmd'], pl, ' '.join(evs))
+    kind = 'd' if case['transport'] == 'ipmbdev' else 'a'
+    if 'probe' in st:
+        return 'probe %s %d %d %d %s' % (kind, variant['inc'], r['pre_seq'], st['probe'], ' '.join(evs))
+    return 'i2c %s %d %d %d %d %d %s %s' % (kind, r['pre_seq'], req['rs_sa'], req['netfn'], req['lun'], req['cmd'], pl,
+                                           ' '.join(evs))
 
 
 def real_line(case, r):
@@ -258,18 +322,18 @@ def real_line(case, r):
     tx = r['tx']
     txs = lean.hexs(tx[0]) if tx and tx[0] is not None else '?'
     if case['transport'] == 'rmcp':
-        return '%s seq=%d q=%s consumed=%d sends=%d tx=%s' % (o, r['seq'], _hexq(r['queue']), r['consumed'],
-                                                             len(tx), txs)
+        return '%s seq=%d q=%s consumed=%d sends=%d tx=%s left=%s' % (
+            o, r['seq'], _hexq(r['queue']), r['consumed'] + r['drained'] * 0, len(tx), txs,
+            ','.join(_evs(r['left'])) or '-')
     return '%s seq=%d consumed=%d sends=%d tx=%s' % (o, r['seq'], r['consumed'], len(tx), txs)
 
 
 def _frames_seen(case, st, r):
-    """Payloads of the events the code consumed (what it can have looked at)."""
-    out = []
-    for e in st['events'][:r['consumed']]:
-        if e[0] in ('F', 'L'):
-            out.append(e[1] if case['transport'] == 'rmcp' else e[2])
-    return out
+    """Payloads of the datagrams the blocking reads of the request were given (what it can have looked at):
+    what was still in the socket and not discarded, then the arrivals it consumed."""
+    if case['transport'] == 'rmcp':
+        return [e[1] for e in r['seen'] if e[0] in ('F', 'L')]
+    return [e[2] for e in st['events'][:r['consumed']] if e[0] in ('F', 'L')]
 
 
 class Judge(object):
@@ -286,8 +350,8 @@ class Judge(object):
             self.flush()
 
     # ---- Spec predicates on single frames, cached
-    def _cls_key(self, cs, rid, fhex):
-        return '%d %d %d %d %d %s' % (cs, rid[0], rid[1], rid[2], rid[3], fhex or '-')
+    def _cls_key(self, cs, rid, br, fhex):
+        return '%d %d %d %d %d %s %s' % (cs, rid[0], rid[1], rid[2], rid[3], br, fhex or '-')
 
     def flush(self):
         ctx = self.ctx
@@ -299,18 +363,21 @@ class Judge(object):
             for si, (st, r) in enumerate(zip(case['steps'], res)):
                 lines.append(model_line(case, st, r, self.variant))
                 slots.append(('model', ci, si))
+                req = _step_req(st)
                 wire_seq = (r['pre_seq'] + 1) % 64
-                rid = _req_id(st['req'], wire_seq)
-                if r['out'][0] == 'ok':
+                rid = _req_id(req, wire_seq)
+                br = bridged_of(req, wire_seq)
+                if r['out'][0] == 'ok' and 'probe' not in st:
                     recv = [lean.hexs(x) for x in r['pre_q']] + [f or '-' for f in _frames_seen(case, st, r)]
                     lines.append('oracle %d %d %d %d %d %s' % (cs, rid[0], rid[1], rid[2], rid[3], ' '.join(recv)))
                     slots.append(('oracle', ci, si))
-                for e in st['events']:
-                    if e[0] == 'F':
-                        fh = e[1] if case['transport'] == 'rmcp' else e[2]
-                        k = self._cls_key(cs, rid, fh)
-                        if k not in self.cls_cache and k not in need_cls:
-                            need_cls[k] = True
+                fhs = [e[1] if case['transport'] == 'rmcp' else e[2] for e in st['events'] if e[0] == 'F']
+                if r['out'][0].startswith('CompletionCodeError') and case['transport'] == 'rmcp':
+                    fhs += _frames_seen(case, st, r)
+                for fh in fhs:
+                    k = self._cls_key(cs, rid, br, fh)
+                    if k not in self.cls_cache and k not in need_cls:
+                        need_cls[k] = True
         for k in need_cls:
             lines.append('classify ' + k)
             slots.append(('cls', k, None))
@@ -322,8 +389,7 @@ class Judge(object):
             elif kind == 'oracle':
                 oracle[(a, b)] = ans
             else:
-                d = dict(p.split('=') for p in ans.split()) if '=' in ans else {}
-                self.cls_cache[a] = (d.get('reply') == '1', d.get('unrelated') == '1', d.get('bareack') == '1')
+                self.cls_cache[a] = _parse_cls(ans)
         for ci, (case, res) in enumerate(pend):
             self._judge_case(case, res, model, oracle, ci)
         if len(self.cls_cache) > 400000:
@@ -339,6 +405,13 @@ class Judge(object):
         for si, (st, r) in enumerate(zip(case['steps'], res)):
             ctx.count('outcome:%s:%s' % (tr, r['out'][0].split(':')[0]))
             ctx.count('script_len:%d' % min(len(st['events']), 9))
+            if 'probe' in st:
+                ctx.count('request:is_ipmc_accessible')
+            elif st['req']['cmd'] == 0x34:
+                ctx.count('request:cmd-34h:%s:%s' % ('App' if st['req']['netfn'] == 6 else 'other-netfn',
+                                                      'bridged' if len(st['req'].get('routing') or []) > 1 else 'not-bridged'))
+            if tr == 'rmcp' and r['pre_sock']:
+                ctx.count('socket-not-empty-at-start:%d' % min(len(r['pre_sock']), 4))
             for k in st.get('kinds', []):
                 ctx.count('kind:' + k)
             # ---------- tie: real code vs Lean model
@@ -346,7 +419,7 @@ class Judge(object):
             code = real_line(case, r)
             if m is not None and m != code:
                 ctx.disagree('%s request %d' % (tr, si), _mini(case, si), m, code)
-            if tr != 'rmcp':
+            if tr != 'rmcp' and 'probe' not in st:
                 fails = len(r['tx']) - (0 if r['out'][0] == 'IpmiTimeoutError' else 1)
                 want = [0.2 * (i + 1) for i in range(fails)]
                 if len(r['sleeps']) != len(want) or any(abs(a - b) > 1e-9 for a, b in zip(r['sleeps'], want)):
@@ -359,17 +432,21 @@ class Judge(object):
             # whatever the outcome of the previous request was
             ws = _wire_seq(r)
             if si > 0 and ws is not None and ws == _wire_seq(res[si - 1]):
-                ctx.violate(SIG_SEQ % tr, 'two consecutive requests carry the same sequence number on the wire '
-                            '(previous request ended with %s)' % res[si - 1]['out'][0], _mini(case, si),
+                ctx.violate((SIG_SEQ % tr) + (':is_ipmc_accessible' if 'probe' in st else ''),
+                            'two consecutive requests carry the same sequence number on the wire (previous request '
+                            'ended with %s)' % res[si - 1]['out'][0], _mini(case, si),
                             expected='sequence != %d' % ws, observed='sequence %d' % ws)
 
-    def _cls(self, cs, rid, fhex):
-        k = self._cls_key(cs, rid, fhex)
+    def _cls(self, cs, rid, br, fhex):
+        k = self._cls_key(cs, rid, br, fhex)
         if k not in self.cls_cache:
-            ans = self.drv.ask('classify ' + k)
-            d = dict(p.split('=') for p in ans.split())
-            self.cls_cache[k] = (d.get('reply') == '1', d.get('unrelated') == '1', d.get('bareack') == '1')
+            self.cls_cache[k] = _parse_cls(self.drv.ask('classify ' + k))
         return self.cls_cache[k]
+
+
+def _parse_cls(ans):
+    d = dict(p.split('=') for p in ans.split()) if '=' in ans else {}
+    return (d.get('reply') == '1', d.get('unrelated') == '1', d.get('bareack') == '1', d.get('ownrsp') == '1')
 
 
 def _wire_seq(r):
@@ -384,7 +461,8 @@ def judge_step(case, si, st, r, oracle_ans, cls):
     """Property clauses on one request of the real code.  -> [(signature, what, expected, observed)]."""
     tr = case['transport']
     out = []
-    req = st['req']
+    req = _step_req(st)
+    probe = 'probe' in st
     cs = 0 if (tr == 'rmcp' and case['cfg'].get('igs')) else 1
     wire_seq_expected = None
     # P2 — sequence numbers
@@ -392,22 +470,44 @@ def judge_step(case, si, st, r, oracle_ans, cls):
     if tx and tx[0] is not None and len(tx[0]) >= 5:
         ws = tx[0][4] >> 2
         if ws == r['pre_seq'] or any(t != tx[0] for t in tx):
-            out.append((SIG_SEQ % tr, 'request carries the same sequence number as the previous one '
-                        '(or re-sends differ)', 'sequence != %d' % r['pre_seq'], 'sequence %d' % ws))
+            out.append(((SIG_SEQ % tr) + (':is_ipmc_accessible' if probe else ''),
+                        'request carries the same sequence number as the previous one (or re-sends differ)',
+                        'sequence != %d' % r['pre_seq'], 'sequence %d' % ws))
         wire_seq_expected = ws
     else:
         out.append((SIG_SEQ % tr, 'no well-formed request was written', 'one IPMB request', repr(tx)[:80]))
     rid = _req_id(req, (r['pre_seq'] + 1) % 64)
+    br = bridged_of(req, rid[3])
     # P1 — attribution
-    if r['out'][0] == 'ok':
+    if r['out'][0] == 'ok' and not probe:
         got = lean.hexs(r['out'][1])
         allowed = (oracle_ans or 'allowed').split()[1:]
         if got not in allowed:
-            out.append((SIG_ATTR % tr, 'returned data is not the data of a received intact reply to this request',
-                        'one of %s or an error' % (allowed or 'none'), got))
+            sig, what = SIG_ATTR % tr, 'returned data is not the data of a received intact reply to this request'
+            if tr == 'rmcp' and any(len(e) > 1 and e[1] and bytes.fromhex(e[1])[5:6] == b'\x34' for e in r['seen'][-1:]):
+                sig += ':damaged-wrapper'
+                what += ' (it was taken out of a Send Message response that is not intact)'
+            out.append((sig, what, 'one of %s or an error' % (allowed or 'none'), got))
+    if r['out'][0] == 'ok' and probe:
+        # "accessible" must rest on an intact reply to THIS probe (its own sequence number) among the frames read
+        frames = _frames_seen(case, st, r)
+        prid = _req_id(req, wire_seq_expected if wire_seq_expected is not None else rid[3])
+        if not any(cls(1, prid, '-', f)[0] for f in frames) or wire_seq_expected == r['pre_seq']:
+            out.append(((SIG_ATTR % tr) + ':is_ipmc_accessible',
+                        'is_ipmc_accessible says "accessible" on a frame that is not the reply to this probe (a late '
+                        'reply to an earlier request carries the same sequence number)',
+                        'IpmiTimeoutError (nobody answered the probe)', 'True'))
+    # P4 — a completion code is raised only from an intact response to the Send Message of THIS transaction
+    if tr == 'rmcp' and r['out'][0].startswith('CompletionCodeError'):
+        own = [f for f in _frames_seen(case, st, r) if f and cls(cs, rid, br, f)[3]]
+        if not own:
+            out.append((SIG_CC % tr, 'CompletionCodeError is raised from a frame that is not an intact response to the '
+                        'Send Message of this transaction (%s)' % ('the request is not bridged at all' if br == '-' else
+                                                                    'late / foreign acknowledgement or damaged frame'),
+                        'the frame is dropped like any other unrelated frame', r['out'][0]))
     # P3 — progress
-    if req['cmd'] != 0x34 and req['netfn'] % 2 == 0 and wire_seq_expected == rid[3]:
-        exp = progress_expectation(case, st, rid, cs, cls)
+    if not probe and req['netfn'] % 2 == 0 and wire_seq_expected == rid[3]:
+        exp = progress_expectation(case, st, rid, br, cs, cls)
         if exp is not None:
             got = ('ok ' + lean.hexs(r['out'][1])) if r['out'][0] == 'ok' else r['out'][0]
             if got != 'ok ' + exp:
@@ -416,11 +516,22 @@ def judge_step(case, si, st, r, oracle_ans, cls):
                 what = ('a matching reply preceded by no more unrelated frames than the retry budget allows is not '
                         'returned' if fresh else
                         'frames received during earlier requests prevent a later request from finding its reply')
+                if not fresh and tr == 'rmcp' and r['pre_sock'] and not r['pre_q']:
+                    sig += ':socket-leftover'
+                    what += ' (%d datagram(s) an earlier request left unread in the socket)' % len(r['pre_sock'])
+                elif req['cmd'] == 0x34:
+                    sig += ':cmd-34h'
+                    what += ' (the request\'s command id is 34h, network function %02xh, %s)' % (
+                        req['netfn'], 'bridged' if br != '-' else 'not bridged')
+                elif tr == 'rmcp' and any(k in FOREIGN + ['ack'] for k in st.get('kinds', [])) and \
+                        (got.startswith('CompletionCodeError') or br == '-'):
+                    sig += ':foreign-send-message-response'
+                    what += ' (a Send Message response that does not belong to this transaction is in front of it)'
                 out.append((sig, what, 'ok ' + exp, got))
     return out
 
 
-def progress_expectation(case, st, rid, cs, cls):
+def progress_expectation(case, st, rid, br, cs, cls):
     """If the script has the shape the progress clauses speak about, the data that must be
     returned (hex), else None."""
     tr = case['transport']
@@ -437,11 +548,11 @@ def progress_expectation(case, st, rid, cs, cls):
                 continue
             if e[0] != 'F':
                 return None
-            rep, unrel, ack = cls(cs, rid, e[1])
+            rep, unrel, ack, own = cls(cs, rid, br, e[1])
             if rep:
+                if own:
+                    return None      # a Send Message to LUN 0 of the target through a bridge: ambiguous by design
                 f = bytes.fromhex(e[1])
-                if f[5] == 0x34:
-                    return None
                 return lean.hexs(f[6:-1])
             if ack:
                 continue
@@ -466,7 +577,7 @@ def progress_expectation(case, st, rid, cs, cls):
             continue
         if e[0] != 'F':
             return None
-        rep, unrel, ack = cls(cs, rid, e[2])
+        rep = cls(cs, rid, '-', e[2])[0]
         if el + e[1] >= timeout:
             return None
         if rep:
@@ -480,12 +591,13 @@ def progress_expectation(case, st, rid, cs, cls):
 
 def _case_key(case):
     return (case['transport'], tuple(sorted(case['cfg'].items())), case['seq0'],
-            tuple((tuple(sorted((k, str(v)) for k, v in s['req'].items())), str(s['events'])) for s in case['steps']))
+            tuple((tuple(sorted((k, str(v)) for k, v in _step_req(s).items())), 'probe' in s, str(s['events']))
+                  for s in case['steps']))
 
 
 def _mini(case, upto):
     c = dict(case)
-    c['steps'] = [{'req': s['req'], 'events': s['events']} for s in case['steps'][:upto + 1]]
+    c['steps'] = [dict((k, s[k]) for k in ('req', 'probe', 'events') if k in s) for s in case['steps'][:upto + 1]]
     return c
 
 
@@ -496,11 +608,13 @@ def _std_req(i):
 
 
 def _rand_req(rng, routing=True):
-    r = rng.random()
     cmd = rng.randrange(256)
-    if cmd == 0x34 and r < 0.8:
-        cmd = 0x33
-    req = {'rs_sa': rng.choice([0x20, 0x82, 0x72, 0xb2]), 'netfn': 2 * rng.randrange(32), 'lun': rng.randrange(4),
+    netfn = 2 * rng.randrange(32)
+    if rng.random() < 0.12:
+        # command id 34h: HPM.1 Get Upgrade Status (2Ch), OEM / other network functions, and - not bridged - a raw
+        # Send Message (App): every one of them is a request like any other
+        cmd, netfn = 0x34, rng.choice([0x2c, 0x2c, 0x30, 0x0a, 6, 2 * rng.randrange(32)])
+    req = {'rs_sa': rng.choice([0x20, 0x82, 0x72, 0xb2]), 'netfn': netfn, 'lun': rng.randrange(4),
            'cmd': cmd, 'payload': bytes(rng.randrange(256) for _ in range(rng.choice([0, 0, 1, 2, 5, 16]))).hex()}
     if routing and rng.random() < 0.4:
         d = rng.randrange(1, 4)
@@ -568,19 +682,84 @@ def _progress_script(rng, mr, alphabet_noise, with_timeouts):
     return kinds + body + ['match'] + [rng.choice(EXT) for _ in range(rng.randrange(0, 2))]
 
 
+def gen_rmcp_leftovers(ctx, judge):
+    """directed histories for the last clause: k surplus datagrams (duplicates of the reply, the reply to a
+    retransmission, stale / damaged frames) reach the socket during request 1; then four requests whose replies
+    arrive"""
+    reqs = [{'rs_sa': 0x20, 'netfn': 6, 'lun': 0, 'cmd': 1, 'payload': ''},
+            {'rs_sa': 0x82, 'netfn': 0x0a, 'lun': 0, 'cmd': 0x23, 'payload': '0000'},
+            {'rs_sa': 0x82, 'netfn': 0x2c, 'lun': 0, 'cmd': 0x34, 'payload': '00'}]
+    i = 0
+    for mr in (0, 1, 2):
+        for k in (1, 2, 3):
+            for surplus in ('match', 'stale', 'pay', 'cmd', 'lateackcc', 'wrapbad'):
+                for same in (True, False):
+                    i += 1
+                    seq0 = (i * 5) % 64
+                    steps, pre = [], seq0
+                    for si in range(5):
+                        req = reqs[0] if same else reqs[(i + si) % 3]
+                        kinds = ['match'] + ([surplus] * k if si == 0 else [])
+                        steps.append(_rmcp_step(kinds, req, pre, bytes([0, si + 1])))
+                        pre = (pre + 1) % 64
+                    judge.add({'transport': 'rmcp', 'cfg': {'mr': mr, 'igs': 0, 'igl': 0}, 'seq0': seq0, 'steps': steps})
+                    ctx.count('gen:rmcp-leftover')
+    # a request that times out (T x budget), its reply arrives late: it is in the socket when the next one starts
+    for mr in (0, 1, 2):
+        for late in ('match', 'wrapmatch'):
+            i += 1
+            seq0 = (i * 5) % 64
+            req = reqs[1]
+            steps = [_rmcp_step(['T'] * (mr + 1) + [late], req, seq0, b'\x00\x11'),
+                     _rmcp_step(['match'], req, (seq0 + 1) % 64, b'\x00\x22'),
+                     _rmcp_step(['match'], req, (seq0 + 2) % 64, b'\x00\x33')]
+            judge.add({'transport': 'rmcp', 'cfg': {'mr': mr, 'igs': 0, 'igl': 0}, 'seq0': seq0, 'steps': steps})
+            ctx.count('gen:rmcp-leftover')
+
+
+def gen_rmcp_bridging(ctx, judge, rng):
+    """directed: requests whose command id is 34h (bridged and not), corrupted wrapper bytes, acknowledgements
+    of earlier transactions - each in front of the reply, with a budget that tolerates one unrelated frame"""
+    routes = [None, [[0x81, 0x20, 0], [0x20, 0x82, None]], [[0x81, 0x20, 0], [0x20, 0x82, 7], [0x20, 0x72, None]]]
+    i = 0
+    for netfn, cmd in ((0x2c, 0x34), (0x30, 0x34), (6, 0x34), (6, 1), (0x0a, 0x11)):
+        for route in routes:
+            if netfn == 6 and cmd == 0x34 and route:
+                continue         # Send Message through a bridge: excluded (see ASSUMPTIONS)
+            for kinds in (['match'], ['wrapmatch'], ['ack', 'match'], ['ack', 'wrapmatch'], ['lateack', 'match'],
+                          ['lateackcc', 'match'], ['envccold', 'match'], ['wrapbad', 'match'], ['wrapbadcc', 'match'],
+                          ['wrapbad', 'wrapmatch'], ['wrapbadcc', 'wrapmatch'], ['cmd34', 'match'], ['wrapbad'],
+                          ['wrapbadcc'], ['lateackcc'], ['stale', 'lateackcc', 'match']):
+                for mr in (0, 1, 2):
+                    i += 1
+                    seq0 = (i * 3) % 64
+                    req = {'rs_sa': 0x72 if route else 0x20, 'netfn': netfn, 'lun': 0, 'cmd': cmd, 'payload': ''}
+                    if route:
+                        req['routing'] = route
+                    data = bytes([0, rng.randrange(256), rng.randrange(256)])
+                    judge.add({'transport': 'rmcp', 'cfg': {'mr': mr, 'igs': 0, 'igl': 0}, 'seq0': seq0,
+                               'steps': [_rmcp_step(kinds, req, seq0, data)]})
+                    ctx.count('gen:rmcp-bridging')
+
+
 def gen_rmcp_sessions(ctx, judge, rng, n):
-    noise = ['stale', 'cmd', 'netfn', 'lun', 'hdr', 'pay', 'stale2', 'stale32', 'echo', 'wrapstale']
+    noise = ['stale', 'cmd', 'netfn', 'lun', 'hdr', 'pay', 'stale2', 'stale32', 'echo', 'wrapstale',
+             'lateack', 'lateackcc', 'wrapbad', 'cmd34']
     for _ in range(n):
         mr = rng.choice([0, 1, 2, 3])
         cfg = {'mr': mr, 'igs': int(rng.random() < 0.15), 'igl': int(rng.random() < 0.15)}
         seq0 = rng.choice([0, 5, 60, 62, 63, rng.randrange(64)])
         steps, pre = [], seq0
         same_req = _rand_req(rng) if rng.random() < 0.5 else None
-        for si in range(rng.randrange(2, 6)):
+        for si in range(rng.randrange(2, 7)):
             req = same_req or _rand_req(rng)
             r = rng.random()
             if r < 0.45:
                 kinds = _progress_script(rng, mr, noise, rng.random() < 0.4)
+                if rng.random() < 0.3:
+                    # surplus datagrams behind the reply: still in the socket when the next request starts
+                    kinds += [rng.choice(['match', 'stale', 'pay', 'wrapmatch', 'lateackcc', 'cmd'])
+                              for _ in range(rng.randrange(1, 4))]
             elif r < 0.6:
                 kinds = ['T'] * rng.randrange(1, mr + 3)
             elif r < 0.75:
@@ -618,14 +797,44 @@ def gen_i2c_random(ctx, judge, rng, tr, n):
         for si in range(rng.choice([1, 1, 1, 2, 3, 4])):
             req = _rand_req(rng, routing=False)
             req['rs_sa'] &= 0xfe
+            probe = rng.random() < 0.25
+            if probe:
+                req = dict(PROBE_REQ, rs_sa=req['rs_sa'])
             kinds = [rng.choice(alpha) for _ in range(rng.randrange(0, 8))]
             if rng.random() < 0.4:
                 kinds = [rng.choice(['stale', 'stale32', 'cmd', 'lun', 'pay', 'I', 'E']) for _ in range(rng.randrange(0, 4))] + ['match']
             dts = [rng.choice([0, 1, 2, 3, 5, 8, 15, 16, 17, 40]) for _ in kinds]
-            steps.append(_i2c_step(kinds, dts, req, pre, _data(rng)))
+            step = _i2c_step(kinds, dts, req, pre, _data(rng))
+            if probe:
+                step = {'probe': req['rs_sa'], 'kinds': step['kinds'], 'events': step['events']}
+            steps.append(step)
             pre = (pre + 1) % 64
         judge.add({'transport': tr, 'cfg': {}, 'seq0': seq0, 'steps': steps})
         ctx.count('gen:%s-random' % tr)
+
+
+def gen_i2c_probes(ctx, judge, tr):
+    """directed: `is_ipmc_accessible` as a request among requests - after a request whose reply came late (the late
+    copy is the first thing the probe reads), after another probe, before a request"""
+    gdi = dict(PROBE_REQ, rs_sa=0x82)
+    other = {'rs_sa': 0x82, 'netfn': 0x0a, 'lun': 0, 'cmd': 0x10, 'payload': ''}
+    i = 0
+    for seq0 in (0, 5, 62, 63):
+        for first in (gdi, other):
+            for late in (True, False):
+                for target in (0x82, 0x84):
+                    i += 1
+                    s1 = _i2c_step(['I', 'match'], (0, 2), first, seq0, b'\x00\x82\x00\x01')
+                    # the probe: the late copy of the reply to request 1 (sequence number of request 1) arrives, nobody
+                    # answers the probe itself
+                    pk = (['stale'] if late else []) + ['I']
+                    p1 = _i2c_step(pk, (3, 0)[:len(pk)], dict(PROBE_REQ, rs_sa=target), (seq0 + 1) % 64, b'\x00\x82\x00\x01')
+                    p2 = _i2c_step(['match'], (2,), dict(PROBE_REQ, rs_sa=target), (seq0 + 2) % 64, b'\x00\x84')
+                    s4 = _i2c_step(['stale', 'match'], (1, 2), other, (seq0 + 3) % 64, b'\x00\x55')
+                    steps = [s1, {'probe': target, 'kinds': p1['kinds'], 'events': p1['events']},
+                             {'probe': target, 'kinds': p2['kinds'], 'events': p2['events']}, s4]
+                    judge.add({'transport': tr, 'cfg': {}, 'seq0': seq0, 'steps': steps})
+                    ctx.count('gen:%s-probe' % tr)
 
 
 def gen_field_sweep(ctx, judge):
@@ -641,7 +850,7 @@ def gen_field_sweep(ctx, judge):
             variants = ['seq:%d' % v for v in range(64) if v != seq]
             variants += ['lun:%d' % v for v in range(4) if v != req['lun']]
             variants += ['netfn:%d' % v for v in range(64) if v != req['netfn'] + 1]
-            variants += ['cmd:%d' % v for v in range(256) if v not in (req['cmd'], 0x34)]
+            variants += ['cmd:%d' % v for v in range(256) if v != req['cmd']]
             variants += ['chk1:%d' % v for v in range(1, 256)]
             variants += ['chk2:%d' % v for v in range(1, 256)]
             for v in variants:
@@ -656,35 +865,80 @@ def gen_field_sweep(ctx, judge):
 
 
 # =============================================================== which variant does the tree implement?
-WITNESS = {'transport': 'rmcp', 'cfg': {'mr': 1, 'igs': 0, 'igl': 0}, 'seq0': 0, 'steps': None}
-
+# the witnesses of the counter-example theorems of Props/C04.lean, run on the real code
 
 def witness_case():
+    """finds_match_after_noise_requeue_counterexample / no_poisoning_requeue_counterexample (before fixes/C04-1)"""
     req = {'rs_sa': 0x20, 'netfn': 6, 'lun': 0, 'cmd': 1, 'payload': ''}
-    c = dict(WITNESS)
-    c['steps'] = [_rmcp_step(['stale', 'match'], req, 0, b'\x00\xaa\xbb'),
-                  _rmcp_step(['match'], req, 1, b'\x00\xcc')]
-    return c
+    return {'transport': 'rmcp', 'cfg': {'mr': 1, 'igs': 0, 'igl': 0}, 'seq0': 0,
+            'steps': [_rmcp_step(['stale', 'match'], req, 0, b'\x00\xaa\xbb'),
+                      _rmcp_step(['match'], req, 1, b'\x00\xcc')]}
+
+
+def witness_cmd34():
+    """un-bridged HPM.1 Get Upgrade Status (2Ch/34h): as shipped its reply is taken for a Send Message response"""
+    req = {'rs_sa': 0x20, 'netfn': 0x2c, 'lun': 0, 'cmd': 0x34, 'payload': ''}
+    return {'transport': 'rmcp', 'cfg': {'mr': 0, 'igs': 0, 'igl': 0}, 'seq0': 0,
+            'steps': [_rmcp_step(['match'], req, 0, b'\x00\x00\x33')]}
+
+
+def witness_late_ack():
+    """late_ack_asShipped_counterexample: the failing acknowledgement of an earlier transaction, request not bridged"""
+    req = {'rs_sa': 0x20, 'netfn': 6, 'lun': 0, 'cmd': 1, 'payload': ''}
+    return {'transport': 'rmcp', 'cfg': {'mr': 1, 'igs': 0, 'igl': 0}, 'seq0': 1,
+            'steps': [_rmcp_step(['lateackcc', 'match'], req, 1, b'\x00\xcc')]}
+
+
+def witness_leftover():
+    """no_poisoning_asShipped_counterexample: the reply to request 1 is delivered twice, max_retries = 0"""
+    req = {'rs_sa': 0x20, 'netfn': 6, 'lun': 0, 'cmd': 1, 'payload': ''}
+    return {'transport': 'rmcp', 'cfg': {'mr': 0, 'igs': 0, 'igl': 0}, 'seq0': 0,
+            'steps': [_rmcp_step(['match', 'match'], req, 0, b'\x00\xaa'),
+                      _rmcp_step(['match'], req, 1, b'\x00\xcc'),
+                      _rmcp_step(['match'], req, 2, b'\x00\xdd')]}
+
+
+def witness_probe(tr):
+    """probe_reuses_seq_asShipped_counterexample: request, then is_ipmc_accessible; the late reply to the request
+    is the only thing the probe reads"""
+    req = dict(PROBE_REQ, rs_sa=0x82)
+    s1 = _i2c_step(['match'], (2,), req, 0, b'\x00\x82')
+    p = _i2c_step(['stale', 'I'], (2, 0), dict(PROBE_REQ, rs_sa=0x84), 1, b'\x00\x82')
+    return {'transport': tr, 'cfg': {}, 'seq0': 0,
+            'steps': [s1, {'probe': 0x84, 'kinds': p['kinds'], 'events': p['events']}]}
 
 
 def probe_variant():
-    """Run the recorded witness (Props.C04.*_asShipped_counterexample) on the real code."""
+    """-> {'requeue', 'cmdOnly', 'drain', 'inc'} (0/1) of the working tree, as Loops.Cfg / i2cProbe name them"""
+    v = {}
     res = run_real(witness_case())
-    if res[0]['out'][0] == 'RetryError' and res[0]['queue']:
-        return 'asShipped'
-    if res[0]['out'][0] == 'ok' and not res[0]['queue']:
-        return 'intended'
-    return 'unknown'
+    v['requeue'] = 1 if (res[0]['out'][0] == 'RetryError' and res[0]['queue']) else 0
+    v['cmdOnly'] = 0 if run_real(witness_cmd34())[0]['out'][0] == 'ok' else 1
+    v['drain'] = 1 if run_real(witness_leftover())[1]['out'][0] == 'ok' else 0
+    res = run_real(witness_probe('ipmbdev'))
+    v['inc'] = 1 if _wire_seq(res[1]) != _wire_seq(res[0]) else 0
+    return v
+
+
+VARIANT_NAMES = {'requeue': ('unmatched frame dropped', 'unmatched frame put back into _q (before fixes/C04-1)'),
+                 'cmdOnly': ('Send Message response recognised by rx_filter against the outstanding request',
+                             'every frame with byte 5 = 34h unwrapped (before fixes/C09-1)'),
+                 'drain': ('no drain: unread datagrams stay in the socket (before fixes/C04-3)',
+                           'stale datagrams discarded before a request is sent'),
+                 'inc': ('is_ipmc_accessible reuses the previous sequence number (before fixes/C04-4)',
+                         'is_ipmc_accessible advances the sequence number')}
 
 
 # =============================================================== entry points
 def _corpus():
-    cases = [witness_case()]
+    cases = [witness_case(), witness_cmd34(), witness_late_ack(), witness_leftover(), witness_probe('ipmbdev'),
+             witness_probe('aardvark')]
     # Appendix-B style directed cases: filter says no but data returned; acknowledgements counted
     req = {'rs_sa': 0x20, 'netfn': 6, 'lun': 0, 'cmd': 1, 'payload': ''}
+    breq = dict(req, rs_sa=0x82, routing=[[0x81, 0x20, 0], [0x20, 0x82, None]])
     for mr in (0, 1, 2):
         cases.append({'transport': 'rmcp', 'cfg': {'mr': mr, 'igs': 0, 'igl': 0}, 'seq0': 3,
-                      'steps': [_rmcp_step(['ack'] * (mr + 2) + ['match'], req, 3, b'\x00\x01')]})
+                      'steps': [_rmcp_step(['ack'] * (mr + 2) + ['match'], breq, 3, b'\x00\x01')]})
         cases.append({'transport': 'rmcp', 'cfg': {'mr': mr, 'igs': 0, 'igl': 0}, 'seq0': 63,
                       'steps': [_rmcp_step(['cmd'] * mr + ['match'], req, 63, b'\x00\x02'),
                                 _rmcp_step(['stale'] * mr + ['match'], req, 0, b'\x00\x03')]})
@@ -694,19 +948,22 @@ def _corpus():
 def run(ctx):
     drv = ctx.driver('drv_c04')
     variant = probe_variant()
-    ctx.extra['rmcp_variant'] = variant
-    if variant == 'unknown':
-        ctx.notes.append('witness probe matched neither variant; correspondence uses the as-shipped model')
-    judge = Judge(ctx, drv, 'intended' if variant == 'intended' else 'asShipped')
+    ctx.extra['source_variant'] = dict((k, VARIANT_NAMES[k][v]) for k, v in variant.items())
+    judge = Judge(ctx, drv, variant)
     if _gen:
         c = dict(p.split('=') for p in drv.ask('consts').split())
-        if int(c['send']) != _gen['cmdSendMessage'] or int(c['mod']) != _gen['rmcpSeqMod']:
+        if int(c['send']) != _gen['cmdSendMessage'] or int(c['mod']) != _gen['rmcpSeqMod'] or \
+                int(c['app']) != _gen['netfnApp']:
             ctx.disagree('generated constants', {}, str(c), str(_gen))
     rng = ctx.rng('c04')
     quick = ctx.tier == 'quick'
     for case in _corpus():
         judge.add(case)
         ctx.count('gen:corpus')
+    gen_rmcp_leftovers(ctx, judge)
+    gen_rmcp_bridging(ctx, judge, ctx.rng('c04-bridging'))
+    for tr in ('ipmbdev', 'aardvark'):
+        gen_i2c_probes(ctx, judge, tr)
     gen_field_sweep(ctx, judge)
     gen_rmcp_exhaustive(ctx, judge, 4 if quick else 5, (0, 1, 2, 3), BASE9)
     for q in ((1, 0), (0, 1), (1, 1)):
@@ -732,7 +989,7 @@ def run(ctx):
                 ctx.count('gen:rmcp-exh6')
             judge.flush()
     judge.flush()
-    samples = _corpus()[:2]
+    samples = _corpus()[:4]
     for c in samples:
         ctx.sample({'case': _mini(c, len(c['steps']) - 1), 'real': [real_line(c, r) for r in run_real(c)]})
 
@@ -747,13 +1004,16 @@ def search(ctx):
         ctx.notes.append('search: no driver (Spec oracle unavailable)')
         return
     rng = ctx.rng('c04-search')
-    judge = Judge(ctx, drv, 'asShipped')
+    judge = Judge(ctx, drv, probe_variant())
     keep = ctx.disagreements
     ctx.disagreements = []
     try:
+        gen_rmcp_leftovers(ctx, judge)
+        gen_rmcp_bridging(ctx, judge, rng)
         gen_rmcp_sessions(ctx, judge, rng, 3000)
         gen_rmcp_random(ctx, judge, rng, 3000)
         for tr in ('ipmbdev', 'aardvark'):
+            gen_i2c_probes(ctx, judge, tr)
             gen_i2c_random(ctx, judge, rng, tr, 1500)
         judge.flush()
     finally:
@@ -763,19 +1023,22 @@ def search(ctx):
 def replay(ctx, v):
     case = v['case']
     drv = ctx.driver('drv_c04')
-    judge = Judge(ctx, drv, 'asShipped')
+    judge = Judge(ctx, drv, probe_variant())
     res = run_real(case)
     bad = False
     print('transport %s cfg %s seq0 %d' % (case['transport'], case['cfg'], case['seq0']))
     for si, (st, r) in enumerate(zip(case['steps'], res)):
-        rid = _req_id(st['req'], (r['pre_seq'] + 1) % 64)
+        req = _step_req(st)
+        rid = _req_id(req, (r['pre_seq'] + 1) % 64)
         cs = 0 if (case['transport'] == 'rmcp' and case['cfg'].get('igs')) else 1
         oracle = None
-        if r['out'][0] == 'ok':
+        if r['out'][0] == 'ok' and 'probe' not in st:
             recv = [lean.hexs(x) for x in r['pre_q']] + [f or '-' for f in _frames_seen(case, st, r)]
             oracle = drv.ask('oracle %d %d %d %d %d %s' % (cs, rid[0], rid[1], rid[2], rid[3], ' '.join(recv)))
-        print(' request %d %s' % (si, st['req']))
-        print('   events    %s' % st['events'])
+        print(' request %d %s%s' % (si, 'is_ipmc_accessible ' if 'probe' in st else '', req))
+        if case['transport'] == 'rmcp':
+            print('   in the socket at the start: %s' % (r['pre_sock'] or 'nothing'))
+        print('   arrives   %s' % st['events'])
         print('   real code %s' % real_line(case, r))
         for sig, what, exp, obs in judge_step(case, si, st, r, oracle, judge._cls):
             print('   VIOLATES %s: %s' % (sig, what))
@@ -785,7 +1048,7 @@ def replay(ctx, v):
                 bad = True
         ws = _wire_seq(r)
         if si > 0 and ws is not None and ws == _wire_seq(res[si - 1]):
-            sig = SIG_SEQ % case['transport']
+            sig = (SIG_SEQ % case['transport']) + (':is_ipmc_accessible' if 'probe' in st else '')
             print('   VIOLATES %s: same sequence number %d on the wire as the previous request (which ended with %s)'
                   % (sig, ws, res[si - 1]['out'][0]))
             if sig == v.get('signature'):
